@@ -48,6 +48,8 @@ func (e *Engine) VerifyFunctionAs(fn *ssa.Function, c *Contract, panics bool, pr
 		if own != nil {
 			cc.Loops = own.Loops
 			cc.Uses = append(append([]*Expr{}, ic.Uses...), own.Uses...)
+			cc.Asserts = append(append([]*MidAssert{}, ic.Asserts...), own.Asserts...) // checkpoints and lemma applications of the body
+			cc.SplitReturns = own.SplitReturns
 		}
 		c = &cc
 	}
@@ -433,7 +435,7 @@ func (r *FnRun) frameObligations(fin, entry *State, env *Env) {
 		}
 	}
 	for k, v := range fin.Ghost {
-		if strings.HasPrefix(k, "trace.") || strings.HasPrefix(k, "iterpos:") || ghostOK[k] || v == nil {
+		if strings.HasPrefix(k, "trace.") || strings.HasPrefix(k, "iterpos:") || strings.HasPrefix(k, "iter.") || ghostOK[k] || v == nil {
 			continue
 		}
 		old := entry.Ghost[k]
